@@ -6,16 +6,14 @@ Batch == JsonDeserialize(IOEnv.TRACE_FILE)
 VARIABLE pos
 P(ob) == INSTANCE PyBind WITH Lex <- ob.lex
 Init == pos = 1
-Clause(ob) ==
-  LET v == P(ob)!Verdict(ob.inst, ob.opts, ob.events) IN
-  IF v # "" THEN v
-  ELSE IF ob.includes # P(ob)!Includes(ob.inst, <<>>, ob.opts.top)
-                          \o (IF ob.opts.ser THEN <<"#include <boost/serialization/export.hpp>">> ELSE <<>>)
-       THEN "includes-differ"
-  ELSE ""
+Clauses(ob) ==
+  P(ob)!Verdict(ob.inst, ob.opts, ob.events)
+  \o (IF ob.includes # P(ob)!Includes(ob.inst, <<>>, ob.opts.top)
+                        \o (IF ob.opts.ser THEN <<"#include <boost/serialization/export.hpp>">> ELSE <<>>)
+      THEN <<"C16:includes-differ">> ELSE <<>>)
 Next ==
   /\ pos <= Len(Batch)
-  /\ PrintT(<<"VERDICT", Batch[pos].id, Clause(Batch[pos])>>)
+  /\ PrintT(<<"VERDICT", Batch[pos].id, ToJson(Clauses(Batch[pos]))>>)
   /\ pos' = pos + 1
 Spec == Init /\ [][Next]_pos
 Accepted == TLCGet("stats").diameter - 1 = Len(Batch)
